@@ -142,6 +142,7 @@ type Unit struct {
 	fnConstOrder  []Term
 	axiomFacts    []string
 	localCells    []localCell
+	prune         *pruneIndex
 	privateMemo   map[*ssa.Function]map[ssa.Value]bool
 	implOf        string
 	coverStatus   string
